@@ -200,6 +200,14 @@ theorem C09_packages_refines (flt : Filter) (ign : List Path) (sts : List Stanza
     · simp only [List.mem_singleton] at h; subst h
       exact hok last (by simp) f hf
 
+/-- **C09 (the stanza's package name is its `Package` field).** Whatever else the stanza contains and in whatever order, the
+    name the filters are applied to and the stanza is kept under is the value of its `Package` field. -/
+theorem C09_package_is_field (fs : List Field) (s' : PState) (h : specFields {} fs = .ok s') :
+    s'.package = (lastField kPackage fs).map (fun f => f.rest.drop 1) := by
+  have := specFields_package fs {} s' h
+  rw [this]
+  cases lastField kPackage fs <;> rfl
+
 /-- an empty index derives nothing -/
 theorem C09_packages_empty (flt : Filter) (ign : List Path) (pool : List PoolFile) :
     packagesMachine flt ign [] pool = .ok pool := by
